@@ -181,6 +181,9 @@ def true_facts(sem, body):
                         others = [(blk.idx, s2) for s2 in cfg.succ[blk.idx] if s2 != succ]
                         fs.extend(fl)
         if not (a.op == "const"):
-            fs.append(sem._norm_bool(a, True))
+            truth, x = True, a
+            while x.op == "un" and x.info == "Not":
+                truth, x = (not truth), w.ident(x.args[0], expand_ws=False)
+            fs.append(sem._norm_bool(x, truth))
         common = fs if common is None else [f for f in common if f in fs]
     return common or []
